@@ -1,0 +1,25 @@
+// SPDX-FileCopyrightText: 2022-present Intel Corporation
+//
+// SPDX-License-Identifier: Apache-2.0
+
+//go:build verif
+
+// Verification hooks: constructors and wrappers used only by the external verification harness
+// (built with -tags verif).  Nothing here changes the behaviour of the package.
+
+package transaction
+
+import (
+	proposalstore "github.com/onosproject/onos-config/pkg/store/v2/proposal"
+	transactionstore "github.com/onosproject/onos-config/pkg/store/v2/transaction"
+)
+
+// NewReconcilerForVerif returns the transaction reconciler so that single Reconcile steps can be driven
+func NewReconcilerForVerif(transactions transactionstore.Store, proposals proposalstore.Store) *Reconciler {
+	return &Reconciler{transactions: transactions, proposals: proposals}
+}
+
+// NewWatchersForVerif returns the watchers of the transaction controller
+func NewWatchersForVerif(transactions transactionstore.Store, proposals proposalstore.Store) (*Watcher, *ProposalWatcher) {
+	return &Watcher{transactions: transactions}, &ProposalWatcher{proposals: proposals}
+}
